@@ -1,7 +1,37 @@
 import Dhcp.Driver.Hex
-/- Line-protocol operations of the `Misc` family (stub until the model lands). -/
-namespace Dhcp.Driver
+import Dhcp.Cost
+/-
+  Line-protocol operations of the `Misc` family: the C09 cost measures of the
+  model, evaluated on a wire input (decode with the ordinary model decoder,
+  then apply the structural measures of Dhcp/Cost.lean).
 
-def stepMisc (_op : String) (_args : List String) : Option String := none
+    cost6 <hex>          -> ok <size6> <depth6> <work6> <nest6> | err | panic
+    cost6opt <code> <hex>-> ok <sizeOpt> <depthOpt> <nestOpt>   | err | panic
+    cost4 <hex>          -> ok <size4> <work4>                  | err | panic
+    costl <hex>          -> ok <sizeLabels>                     | err | panic
+-/
+namespace Dhcp.Driver
+open Dhcp Dhcp.Cost
+
+def showCost {α} (f : α → List Nat) : Res α → String
+  | .ok a => "ok " ++ " ".intercalate ((f a).map toString)
+  | .err => "err"
+  | .panic => "panic"
+
+def stepMisc (op : String) (args : List String) : Option String :=
+  match op, args with
+  | "cost6", [h] => do
+    let b ← unhex h
+    pure (showCost (fun m => [size6 m, depth6 m, work6 m b, nest6 m]) (V6.dec6 b))
+  | "cost6opt", [c, h] => do
+    let b ← unhex h
+    pure (showCost (fun o => [sizeOpt o, depthOpt o, nestOpt o]) (V6.parseOption (← c.toNat?) b))
+  | "cost4", [h] => do
+    let b ← unhex h
+    pure (showCost (fun p => [size4 p, work4 p b]) (V4.dec4 b))
+  | "costl", [h] => do
+    let b ← unhex h
+    pure (showCost (fun l => [sizeLabels l]) (Label.fromBytes b))
+  | _, _ => none
 
 end Dhcp.Driver
